@@ -173,6 +173,15 @@ def gen_case(rnd, prop, tier):
     else:
         cliques, _ = gen.gen_cliques(rnd, attrs, max_width=3)
         cliques = [c for c in cliques if c] or [[attrs[0]]]
+        if n >= 4 and rnd.random() < 0.3:
+            # region graphs of three and more levels: a measured clique, a measured sub-clique of it, a measured attribute of that,
+            # and a clique that meets the chain in one attribute only (an intermediate parent next to an unrelated parent)
+            abc = rnd.sample(attrs, 3)
+            rest = [a for a in attrs if a not in abc]
+            cliques = [abc, abc[:2], [abc[0]], [abc[0], rest[0]]] + ([[abc[1], rest[-1]]] if rnd.random() < 0.5 else [])
+            for c in cliques:
+                rnd.shuffle(c)
+            rnd.shuffle(cliques)
     pool = []
     for cl in cliques:
         for _ in range(rnd.choice([1, 1, 2]) if not disjoint else rnd.choice([1, 1, 2])):
